@@ -94,7 +94,8 @@ Definition dPC : dec pcobj :=
 Inductive op := OEv (e : event) | OSnap | OPG (g : pgobj) (cls : Z) | OPrio (pc : pcobj) | OPrioDel (id : positive)
   | OQueue (q : positive) (w st : Z)   (* a Queue version: spec.weight, status.state (1 Open 2 Closed 3 Closing 0 other) *)
   | OStatus (j : positive)
-  | ODrainFail (k : nat).              (* k resync drains during which every GET of syncTask fails *)            (* the cycle's UpdateJobStatus for job j: writes nothing the model holds *)
+  | ODrainFail (k : nat)
+  | OBatch (l : list (positive * positive * positive * Z)).   (* a batch of bind contexts: job task node outcome *)              (* k resync drains during which every GET of syncTask fails *)            (* the cycle's UpdateJobStatus for job j: writes nothing the model holds *)
 
 (* outcome of the API side of a bind: 1 = bound; 0 = Binder.Bind fails; 2 = a pre-binder fails;
    3 = a pre-binder fails and the pod status write that follows fails too; 4 = Binder.Bind fails and
@@ -119,6 +120,8 @@ Definition dOp : dec op :=
   | 7 => let* q := dPos in let* w := dZ in let* st := dZ in ret (OQueue q w st)
   | 17 => let* j := dPos in ret (OStatus j)
   | 18 => let* k := dNat in ret (ODrainFail k)
+  | 19 => let* l := dList (let* j := dPos in let* t := dPos in let* n := dPos in let* f := dZ in
+                           if (f <? 0) || (4 <? f) then fail else ret (j, t, n, f)) in ret (OBatch l)
   | 8 => let* q := dPos in ret (OEv (EQueueDel q))
   | 9 => ret (OEv EDrainCleanup)
   | 10 => ret (OEv EDrainResync)
@@ -244,6 +247,9 @@ Fixpoint run_dump (eps : Z) (c : cache) (s : pstate) (qi : qinfo) (ops : list op
   | [] => []
   | OSnap :: r => [-104] ++ eCacheP c s qi ++ [-102] ++ eSnap eps c (take_snapshot eps c) ++
                   [-103] ++ eCacheP c s qi ++ [-105; 1] ++ run_dump eps c s qi r
+  | OBatch l :: r =>
+    let '(c', rs) := bind_batch eps c l in
+    [-106] ++ eList (fun x => [res_code x]) rs ++ [-101; 0] ++ eCacheP c' s qi ++ run_dump eps c' s qi r
   | ODrainFail k :: r =>
     let c' := Nat.iter k drain_resync_allfail c in
     [-101; 0] ++ eCacheP c' s qi ++ run_dump eps c' s qi r
@@ -290,6 +296,9 @@ Definition entry (sel : Z) (toks : list Z) : list Z :=
            | None => bad_input end
   | 104 => match run_dec (dPair dCacheP dSnap) toks with
            | Some ((c, _), (s, hz)) => eBool (law_snapshot_hz c s hz)
+           | None => bad_input end
+  | 105 => match run_dec (let* c := dCacheP in let* ks := dList (dPair dPos dPos) in ret (c, ks)) toks with
+           | Some ((c, _), ks) => eBool (law_failed_binds_queued c ks)
            | None => bad_input end
   (* diagnostics: the conjuncts of the invariant / of the view comparison *)
   | 201 => match run_dec dCacheP toks with
